@@ -96,6 +96,19 @@ func Flow(r *core.Rand, cfg FlowCfg) *hast.Program {
 		g.titles[0] = ""
 	}
 	g.sc.Visited = append(append([]string{}, g.titles...), "Nowhere")
+	if cfg.VisitLines {
+		// names that are ALMOST a title - a blank before or after it, the other letter case - are not nodes
+		isTitle := map[string]bool{}
+		for _, t := range g.titles {
+			isTitle[t] = true
+		}
+		t := g.titles[r.Intn(n)]
+		for _, v := range []string{" " + t, t + " ", swapCase(t)} {
+			if !isTitle[v] && r.Bool() {
+				g.sc.Visited = append(g.sc.Visited, v)
+			}
+		}
+	}
 	g.budget = r.Range(cfg.MaxStmts/3+1, cfg.MaxStmts)
 
 	p := &hast.Program{}
